@@ -33,6 +33,36 @@ def is_const(q):
     return q.startswith('const ') or ' const' in q
 
 
+def _depends_on_inputs(fn, rhs):
+    """Does the value stored depend on the function's parameters (directly or through locals assigned from them)?"""
+    params = {p['name'] for p in cfront.params(fn) if p.get('name')}
+    tainted = set(params)
+    changed = True
+    guard = 0
+    while changed and guard < 20:
+        changed = False
+        guard += 1
+        for e in walk(cfront.body(fn)):
+            tgt = None
+            src = None
+            if e.get('kind') == 'VarDecl' and 'init' in e:
+                init = [c for c in e.get('inner', []) if c.get('kind') not in ('FullComment',)]
+                tgt, src = e['name'], (init[-1] if init else None)
+            elif is_assign(e):
+                root = strip(e['inner'][0])
+                while root.get('kind') in ('MemberExpr', 'ArraySubscriptExpr') or (root.get('kind') == 'UnaryOperator' and root.get('opcode') == '*'):
+                    root = strip(root['inner'][0])
+                if root.get('kind') == 'DeclRefExpr' and root['referencedDecl'].get('kind') in ('VarDecl',):
+                    tgt, src = root['referencedDecl']['name'], e['inner'][1]
+            if tgt and src is not None and tgt not in tainted:
+                names = {x['referencedDecl']['name'] for x in walk(src) if x.get('kind') == 'DeclRefExpr'}
+                if names & tainted:
+                    tainted.add(tgt)
+                    changed = True
+    names = {x['referencedDecl']['name'] for x in walk(rhs) if x.get('kind') == 'DeclRefExpr'}
+    return bool(names & tainted)
+
+
 def rule_static_storage(ctx, config='default'):
     tus = cfront.load_tus(config=config)
     n = 0
@@ -52,6 +82,15 @@ def rule_static_storage(ctx, config='default'):
         for fname, fn in tu.funcs.items():
             if cfront.basename(fn.get('_locfile') or fn.get('_file')) != cfile:
                 continue
+            local_names = {x.get('name') for x in walk(fn) if x.get('kind') in ('VarDecl', 'ParmVarDecl')}
+            def _is_global_ref(root):
+                nm_ = root['referencedDecl']['name']
+                if nm_ not in gl or nm_ in local_names:
+                    return False
+                gfile, gdecl = gl[nm_]
+                if gdecl.get('storageClass') == 'static' and gfile != cfile:
+                    return False      # a file-local object of another translation unit
+                return True
             for d in walk(cfront.body(fn)):
                 if d.get('kind') == 'VarDecl' and d.get('storageClass') == 'static':
                     n += 1
@@ -63,13 +102,14 @@ def rule_static_storage(ctx, config='default'):
                     root = strip(d['inner'][0])
                     while root.get('kind') in ('MemberExpr', 'ArraySubscriptExpr') or (root.get('kind') == 'UnaryOperator' and root.get('opcode') == '*'):
                         root = strip(root['inner'][0])
-                    if root.get('kind') == 'DeclRefExpr' and root['referencedDecl']['name'] in gl and root['referencedDecl'].get('kind') == 'VarDecl':
-                        written.setdefault(root['referencedDecl']['name'], []).append((cfile, fname, line_of(d)))
+                    if root.get('kind') == 'DeclRefExpr' and root['referencedDecl'].get('kind') == 'VarDecl' and _is_global_ref(root):
+                        dep = _depends_on_inputs(fn, d['inner'][1]) if is_assign(d) and d.get('opcode') == '=' else True
+                        written.setdefault(root['referencedDecl']['name'], []).append((cfile, fname, line_of(d), dep))
                 if d.get('kind') == 'UnaryOperator' and d.get('opcode') == '&':
                     root = strip(d['inner'][0])
                     while root.get('kind') in ('MemberExpr', 'ArraySubscriptExpr'):
                         root = strip(root['inner'][0])
-                    if root.get('kind') == 'DeclRefExpr' and root['referencedDecl']['name'] in gl:
+                    if root.get('kind') == 'DeclRefExpr' and _is_global_ref(root):
                         addr.setdefault(root['referencedDecl']['name'], []).append((cfile, fname, line_of(d)))
     for name, (cfile, d) in sorted(gl.items()):
         where = 'src/%s:%s' % (cfile, line_of(d))
@@ -77,9 +117,16 @@ def rule_static_storage(ctx, config='default'):
             samples.append('%s %s: allowed (%s)' % (where, name, ALLOWED_GLOBALS[name]))
             continue
         if name in written:
-            w = written[name][0]
+            deps = [w for w in written[name] if w[3]]
+            if not deps:
+                # every write stores a value that does not depend on any simulation (literals, other such constants): idempotent
+                # initialisation of a constant table - all simulations write the same bits
+                samples.append('%s %s: written only with simulation-independent values (idempotent initialisation)' % (where, name))
+                ctx.note('R19.1 %s (%s) is a file-scope object initialised at run time with simulation-independent values in %s' % (name, config, written[name][0][1]))
+                continue
+            w = deps[0]
             ctx.report('R19.1', 'global:%s' % name, where,
-                       'mutable file-scope object %s %s is written in %s (src/%s:%s): state shared by all simulations of the process' % (qtype(d), name, w[1], w[0], w[2]))
+                       'mutable file-scope object %s %s is written in %s (src/%s:%s) with a value that depends on the simulation: state shared by all simulations of the process' % (qtype(d), name, w[1], w[0], w[2]))
         elif name in addr:
             a = addr[name][0]
             ctx.report('R19.1', 'global:%s:addr' % name, where, 'the address of mutable file-scope object %s escapes in %s (src/%s:%s)' % (name, a[1], a[0], a[2]))
